@@ -143,10 +143,11 @@ _Bool vf_aptr_cas_weak(struct vf_atomic_ptr_ *a, void **expected, void *desired,
 }
 /* the log head changes whenever another thread registers or erases: arbitrary other record */
 struct %(ZN)s vf_env_rec;
+_Bool g_env_off;                  /* the list is being destroyed: no other thread uses it any more */
 struct %(NODE)s vf_hn, vf_tn, vf_mid;    /* the list nodes a writer can touch (harness) */
 void vf_rcu_env(struct vf_atomic_ptr_ *a)
 {
-  if (vf_LST != 0 && a == (struct vf_atomic_ptr_ *)&vf_LST->m_zombie_head && !g_rec_published && vf_nondet_bool())
+  if (!g_env_off && vf_LST != 0 && a == (struct vf_atomic_ptr_ *)&vf_LST->m_zombie_head && !g_rec_published && vf_nondet_bool())
     vf_LST->m_zombie_head.v = vf_nondet_bool() ? (void *)&vf_env_rec : (void *)0;
 }
 void vf_rcu_loaded(struct vf_atomic_ptr_ *a, void *v)
@@ -359,3 +360,82 @@ FN[r'rcu_list::(const_)?iterator::op_ne'] = dict(
     requires=['!vf_exc'],
     ensures=[('C12 C14', '__CPROVER_return_value == (self->m_current != 0) && !vf_exc', 'end is the null node')],
     assigns='')
+
+# ---------------------------------------------------------------------------- bounded heap checks
+NB = 3   # records / nodes in the harness-built heaps
+
+
+def LOG_BUILD(n):
+    return r'''
+  struct %(L)s lst; vf_LST = &lst;
+  struct %(GUARD)s other_guard;
+  struct %(ZN)s *older = 0;
+  unsigned long nrec = vf_nondet_ulong(); __CPROVER_assume(nrec <= NBOUND);
+  _Bool any_owned = 0; int n_zombies = 0; int n_reader_recs = 0;
+  for (unsigned long i = 0; i < NBOUND; i++) {
+    if (i < nrec) {
+      struct %(ZN)s *r = (struct %(ZN)s *)__CPROVER_allocate(sizeof(struct %(ZN)s), 0);
+      r->next.v = older;
+      if (vf_nondet_bool()) {                       /* a reader registration (possibly still owned) */
+        r->zombie_node = 0;
+        r->owner.v = ALLOW_OWNED && vf_nondet_bool() ? (void *)&other_guard : (void *)0;
+        if (r->owner.v != 0) any_owned = 1;
+        n_reader_recs++;
+      } else {                                      /* an erased node waiting for reclamation */
+        struct %(NODE)s *zn = (struct %(NODE)s *)__CPROVER_allocate(sizeof(struct %(NODE)s), 0);
+        zn->data.life = VF_LIVE; zn->data.guard = 0; zn->deleted = 1; zn->next.v = 0; zn->back.v = 0;
+        r->zombie_node = zn; r->owner.v = 0;
+        n_zombies++;
+      }
+      older = r;
+    }
+  }
+'''.replace('NBOUND', str(n)) % D
+
+
+FN[r'rcu_list::rcu_guard::unlock'] = dict(
+    props='C05 C13',
+    bounded='log of at most %d older records (all shapes: reader registrations owned/unowned, erased-node records); loops unwound %d times with unwinding assertions' % (NB, NB + 2),
+    cbmc_flags=['--unwind', str(NB + 2), '--unwinding-assertions'],
+    harness=LOG_BUILD(NB).replace('ALLOW_OWNED', '1') + r'''
+  struct %(GUARD)s g; g.m_list = &lst;
+  struct %(ZN)s *own = (struct %(ZN)s *)__CPROVER_allocate(sizeof(struct %(ZN)s), 0);
+  own->next.v = older; own->owner.v = &g; own->zombie_node = 0;
+  g.m_zombie = own; g_own = own; lst.m_zombie_head.v = own;
+  vf_exc = 0;
+  %(GUARD)s__unlock(&g);
+  __CPROVER_assert(!vf_exc, "[C05] unlock does not throw");
+  __CPROVER_assert(own->owner.v == 0 && g_owner_clears == 1, "[C05] the guard's owner field is cleared exactly once");
+  __CPROVER_assert(g_after_owner_clear == 0, "[C05] clearing the owner is the last thing unlock does (a later guard may free this record right after)");
+  __CPROVER_assert(!any_owned || (g_rec_frees == 0 && g_node_frees == 0 && g_node_destroys == 0),
+                   "[C05] nothing is reclaimed while an older guard is still registered (its owner may still reach the erased nodes)");
+  __CPROVER_assert(any_owned || (g_rec_frees == (int)nrec && g_node_frees == n_zombies && g_node_destroys == n_zombies && own->next.v == 0 && g_next_written),
+                   "[C13] with no older guard alive every older record and every erased node is destroyed and freed exactly once, and the own record is cut off from them first");
+  __CPROVER_assert(n_zombies > 0 || g_node_destroys == 0, "[C13] with nothing erased, releasing a handle destroys no element");
+''' % D)
+
+FN[r'rcu_list::dtor'] = dict(
+    props='C13',
+    bounded='list of at most %d nodes and log of at most %d records (all released); loops unwound %d times with unwinding assertions' % (NB, NB, NB + 2),
+    cbmc_flags=['--unwind', str(NB + 2), '--unwinding-assertions'],
+    harness=LOG_BUILD(NB).replace('ALLOW_OWNED', '0') + r'''
+  lst.m_zombie_head.v = older; g_env_off = 1;
+  struct %(NODE)s *head = 0; struct %(NODE)s *prev = 0; struct %(NODE)s *tail = 0;
+  unsigned long nnode = vf_nondet_ulong(); __CPROVER_assume(nnode <= %(NB)d);
+  for (unsigned long j = 0; j < %(NB)d; j++) {
+    if (j < nnode) {
+      struct %(NODE)s *nd = (struct %(NODE)s *)__CPROVER_allocate(sizeof(struct %(NODE)s), 0);
+      nd->data.life = VF_LIVE; nd->data.guard = 0; nd->deleted = 0; nd->next.v = 0; nd->back.v = prev;
+      if (prev != 0) prev->next.v = nd; else head = nd;
+      prev = nd; tail = nd;
+    }
+  }
+  lst.m_head.v = head; lst.m_tail.v = tail;
+  lst.m_write_mutex.excl_me = 0; lst.m_write_mutex.shared_me = 0;
+  vf_exc = 0;
+  %(L)s__dtor(&lst);
+  __CPROVER_assert(!vf_exc, "[C13] the list destructor does not throw");
+  __CPROVER_assert(g_node_destroys == (int)nnode + n_zombies && g_node_frees == (int)nnode + n_zombies,
+                   "[C13] every element still in the list and every erased element is destroyed and deallocated exactly once");
+  __CPROVER_assert(g_rec_frees == (int)nrec, "[C13] every bookkeeping record is freed exactly once");
+''' % dict(D, NB=NB))
